@@ -137,14 +137,23 @@ def main():
         texts.append(f"[oc_dense {ci * 7} {co}]")
       elif kind == "avgpool":
         ph, pw = int(rng.integers(1, 4)), int(rng.integers(1, 4))
-        lyr = L.AveragePooling2D((ph, pw), padding="valid")
+        # overlapping / strided windows and same padding: the number of windows is the output extent, not input // pool
+        if rng.integers(0, 2):
+          psh, psw, ppad = ph, pw, "valid"
+        else:
+          psh, psw, ppad = int(rng.integers(1, 4)), int(rng.integers(1, 4)), pad
+        lyr = L.AveragePooling2D((ph, pw), strides=(psh, psw), padding=ppad)
         ishape = (None, h, w, ci)
         got = qtools_util.get_operation_count(lyr, ishape)
         oshape = lyr.compute_output_shape(ishape)
-        true = oshape[1] * oshape[2] * ci * ph * pw
+        # brute force: one window per admissible position
+        nh = len([o for o in range(h) if (o * psh + ph <= h if ppad == "valid" else o * psh < h)])
+        nw = len([o for o in range(w) if (o * psw + pw <= w if ppad == "valid" else o * psw < w)])
+        true = nh * nw * ci * ph * pw
         fid = None
-        items.append((dict(kind=kind, h=h, w=w, c=ci, ph=ph, pw=pw), got, true, [oshape[1], oshape[2], got], fid))
-        texts.append(f"[out_valid {h} {ph} {ph} 1; out_valid {w} {pw} {pw} 1; oc_pool {oshape[1] * oshape[2]} {ci} {ph} {pw}]")
+        items.append((dict(kind=kind, h=h, w=w, c=ci, ph=ph, pw=pw, sh=psh, sw=psw, pad=ppad), got, true, [oshape[1], oshape[2], got], fid))
+        ext = (lambda n_, k_, s_: f"out_valid {n_} {k_} {s_} 1" if ppad == "valid" else f"out_same {n_} {s_}")
+        texts.append(f"[{ext(h, ph, psh)}; {ext(w, pw, psw)}; oc_pool {oshape[1] * oshape[2]} {ci} {ph} {pw}]")
       elif kind == "gap":
         lyr = L.GlobalAveragePooling2D()
         ishape = (None, h, w, ci)
